@@ -195,21 +195,23 @@ def RwZip.save (st : RwZip) (target : Name × Bool) (c : Content) : RwZip × Nam
     | some b => ({ st with buf := some (upsert b newpath c) }, newpath)    -- ValueError -> bufferzip
   else (st, newpath)
 
-/-- `save(<subdir>/<md5>.sig.gz, content)` (overwrite=False): the name is generated against
-    `self.zipfile` ONLY -/
-def RwZip.saveSig (st : RwZip) (md5 : Nat) (c : Content) : RwZip × Name :=
+/-- OLD VARIANT (the code before commit 44244bd, kept for the regression theorems about D10):
+    `save(<subdir>/<md5>.sig.gz, content)` with the name generated against `self.zipfile` ONLY -/
+def RwZip.saveSigOld (st : RwZip) (md5 : Nat) (c : Content) : RwZip × Name :=
   st.save (genName st.zf md5 c) c
 
 def unionZip (zf b : Zip) : Zip := b.foldl (fun acc e => upsert acc e.1 e.2) zf
 
-/-- what the PATCHED `_content_matches` sees (candidate fix for D10, patches/C10-D10-content-matches.diff):
-    the zipfile handed in, and for names that are not there, `bufferzip` -/
+/-- what `_content_matches` sees (since commit 44244bd, the fix of D10): the zipfile handed in, and for
+    names that are not there, `bufferzip` -/
 def readBoth (zf b : Zip) (n : Name) : Option Content :=
   match read zf n with
   | some c => some c
   | none => read b n
 
-def RwZip.saveSigPatched (st : RwZip) (md5 : Nat) (c : Content) : RwZip × Name :=
+/-- `save(<subdir>/<md5>.sig.gz, content)` (overwrite=False): the content-addressed name is generated
+    against the zipfile AND the buffer -/
+def RwZip.saveSig (st : RwZip) (md5 : Nat) (c : Content) : RwZip × Name :=
   match st.buf with
   | none => st.save (genName st.zf md5 c) c
   | some b => st.save (genNameR (readBoth st.zf b) (st.zf.length + b.length + 1) md5 c) c
@@ -236,18 +238,25 @@ def ZipSaver.open (disk : Option Zip) : Res ZipSaver :=
     | some (.manifest rows) => .ok { st := { zf := z, buf := some [] }, rows := rows }
     | _ => .err .valueError      -- "Cannot add to existing zipfile ... without a manifest"
 
+/-- OLD VARIANT of `add` (name search blind to the buffer) -/
+def ZipSaver.addOld (s : ZipSaver) (ss : Sig) : ZipSaver :=
+  let (st', location) := s.st.saveSigOld ss.md5 (.sigs [ss])
+  { st := st', rows := s.rows ++ [mkRow ss (some location)] }
+
 /-- `SaveSignatures_ZipFile.add(ss)` -/
 def ZipSaver.add (s : ZipSaver) (ss : Sig) : ZipSaver :=
   let (st', location) := s.st.saveSig ss.md5 (.sigs [ss])
   { st := st', rows := s.rows ++ [mkRow ss (some location)] }
 
-def ZipSaver.addPatched (s : ZipSaver) (ss : Sig) : ZipSaver :=
-  let (st', location) := s.st.saveSigPatched ss.md5 (.sigs [ss])
-  { st := st', rows := s.rows ++ [mkRow ss (some location)] }
-
 /-- `SaveSignatures_ZipFile.close()`: manifest saved with `overwrite=True`, then flush -/
 def ZipSaver.close (s : ZipSaver) : Zip :=
   (s.st.save (.manifest, true) (.manifest s.rows)).1.flush
+
+/-- OLD VARIANT of a session -/
+def zipSessionOld (disk : Option Zip) (sigs : List Sig) : Res Zip :=
+  match ZipSaver.open disk with
+  | .ok s => .ok (sigs.foldl ZipSaver.addOld s).close
+  | .err e => .err e
 
 /-- one `with SaveSignaturesToLocation("x.zip") as save: for ss in sigs: save.add(ss)` -/
 def zipSession (disk : Option Zip) (sigs : List Sig) : Res Zip :=
@@ -255,10 +264,13 @@ def zipSession (disk : Option Zip) (sigs : List Sig) : Res Zip :=
   | .ok s => .ok (sigs.foldl ZipSaver.add s).close
   | .err e => .err e
 
-def zipSessionPatched (disk : Option Zip) (sigs : List Sig) : Res Zip :=
-  match ZipSaver.open disk with
-  | .ok s => .ok (sigs.foldl ZipSaver.addPatched s).close
-  | .err e => .err e
+/-- OLD VARIANT of a session sequence -/
+def zipSessionsOld : Option Zip → List (List Sig) → Res (Option Zip)
+  | disk, [] => .ok disk
+  | disk, s :: rest =>
+    match zipSessionOld disk s with
+    | .ok z => zipSessionsOld (some z) rest
+    | .err e => .err e
 
 /-- create-then-append sessions on one path -/
 def zipSessions : Option Zip → List (List Sig) → Res (Option Zip)
@@ -266,13 +278,6 @@ def zipSessions : Option Zip → List (List Sig) → Res (Option Zip)
   | disk, s :: rest =>
     match zipSession disk s with
     | .ok z => zipSessions (some z) rest
-    | .err e => .err e
-
-def zipSessionsPatched : Option Zip → List (List Sig) → Res (Option Zip)
-  | disk, [] => .ok disk
-  | disk, s :: rest =>
-    match zipSessionPatched disk s with
-    | .ok z => zipSessionsPatched (some z) rest
     | .err e => .err e
 
 /-- the inner loop of `ZipFileLinearIndex.signatures()` with a manifest: one location after the other,
@@ -305,6 +310,14 @@ def zipManifest (z : Zip) : Option (List Row) :=
   match read z .manifest with
   | some (.manifest rows) => some rows
   | _ => none
+
+/-- `get_manifest(idx, rebuild=True)` on a zip (what `sourmash sig manifest` does by default):
+    `ZipFileLinearIndex._signatures_with_internal` walks the member NAMES and only opens those ending in
+    `.sig` / `.sig.gz` -- a member called `<md5>.sig.gz_0` is skipped (finding C10.4) -/
+def zipRebuildManifest (z : Zip) : List Row :=
+  z.flatMap fun e => match e.1, e.2 with
+    | .sig ⟨m, none⟩, .sigs l => l.map fun s => mkRow s (some (.sig ⟨m, none⟩))
+    | _, _ => []
 
 /-- the signature members of a zip -/
 def sigMembers (z : Zip) : List (MName × Content) :=
@@ -391,8 +404,9 @@ def SqlIndex.open (db : SqlDb) : Res SqlIndex :=
   | [s] => .ok { db := db, scaled := some s }
   | _ => .err .valueError
 
-/-- `SqliteIndex.insert(ss)`; in the code as found the row carries no seed, so `_insert_row` records 42
-    (`recordSeed = false`; the translator reports which it is) -/
+/-- `SqliteIndex.insert(ss)`: since commit 005b230 (the fix of C10.2) the row handed to `_insert_row`
+    carries the sketch's seed (`recordSeed = true`); before that it carried none and 42 was recorded
+    (`recordSeed = false`).  The translator reports which it is. -/
 def SqlIndex.insert (recordSeed : Bool) (ix : SqlIndex) (ss : Sig) : Res SqlIndex :=
   if ss.num ≠ 0 then .err .valueError
   else if ss.track then .err .valueError
@@ -442,6 +456,19 @@ def sqlLoadOne (db : SqlDb) (sk : SqlSketch) : Sig :=
 def sqlLoad (db : SqlDb) : List Sig := db.sketches.map (sqlLoadOne db)
 
 def sqlManifest (db : SqlDb) : List Row := db.sketches.map (·.row)
+
+/-! ## a standalone manifest in SQLite format (`SqliteCollectionManifest`, `sig collect -F sql`):
+    `UNIQUE(internal_location, md5sum)` + `INSERT OR IGNORE`: of the rows of one collection (one
+    internal_location) only the FIRST per md5 is kept (finding C10.5) -/
+
+def sqlManifestKeep : List Row → List Row
+  | [] => []
+  | r :: rest => r :: (sqlManifestKeep rest).filter (fun q => !(q.loc = r.loc && q.md5 = r.md5))
+
+/-- `StandaloneManifestIndex.signatures()` over a manifest all of whose rows point at one collection:
+    the collection is loaded and restricted to the picklist `(name, md5[:8])` of the manifest's rows -/
+def standaloneLoad (rows : List Row) (loaded : List Sig) : List Sig :=
+  loaded.filter fun s => (rows.map fun r => (r.name, r.md5short)).contains (s.name, md5short s.md5)
 
 /-! ## LCA database (`LCA_Database`) -/
 
@@ -496,9 +523,11 @@ def LcaDb.saveLoad (db : LcaDb) : LcaDb :=
       | some m => m + 1
       | none => 0 }
 
-/-- `LCA_Database._signatures`: invert `hashval_to_idx`; an idx that owns no hash never gets an entry -/
-def LcaDb.signatures (db : LcaDb) : List Sig :=
-  let idxs := dedup (db.hashvalToIdx.flatMap (·.2))
+/-- `LCA_Database._signatures`: invert `hashval_to_idx`; since commit 74325d9 (`yieldEmpty = true`, the fix
+    of D11) every idx of `_idx_to_ident` gets an entry as well, before that an idx that owns no hash never
+    got one.  The translator reports which it is. -/
+def LcaDb.signatures (yieldEmpty : Bool) (db : LcaDb) : List Sig :=
+  let idxs := dedup (db.hashvalToIdx.flatMap (·.2) ++ (if yieldEmpty then db.identToIdx.map (·.2) else []))
   idxs.filterMap fun idx =>
     match db.identToIdx.find? (·.2 = idx) with
     | none => none
